@@ -45,9 +45,18 @@ FIXED = [
  ("F49", "C03", "fix: reject processing instructions with the reserved target", "<?XML a?> and <?xml/x?> were accepted as processing instructions; the latter could not be reparsed after serialisation"),
  ("F26", "C09", "fix: prefix_for_namespace keeps looking after a shadowed prefix", "prefix_for_namespace returned None as soon as it met a shadowed prefix although another prefix was bound"),
  ("F27", "C09", "fix: qualified name of an attribute node never uses the default namespace", "node_name_ref/full_name of an attribute in namespace A with xmlns=\"A\" in scope reported the unprefixed name"),
+ ("F30", "C10", "fix: create_missing_prefixes does not reuse a prefix that is already in use", "a second create_missing_prefixes reused n0 and overrode the first binding (MissingPrefix afterwards)"),
+ ("F31b", "C10", "fix: create_missing_prefixes repairs every top-level element of a fragment", "create_missing_prefixes repaired only the first top-level element of a fragment"),
+ ("F50", "C10", "fix: create_missing_prefixes does not invent a prefix for the xml namespace", "with an xml:lang attribute create_missing_prefixes declared n0 for the XML namespace; serialisation then wrote an undeclared n0:lang"),
+ ("F37", "C15", "fix: deduplicate_namespaces keeps a declaration whose alternative is shadowed below", "<r xmlns:q=\"A\"><e xmlns:p=\"A\" xmlns:q=\"B\"><p:x/></e></r> lost p and failed with MissingPrefix(A) after deduplication"),
+ ("F51", "C15", "fix: deduplicate_namespaces runs to a fixed point", "a second deduplicate_namespaces call removed further declarations"),
  ("F31a", "C06", "fix: create_missing_prefixes returns an error for a document without an element", "create_missing_prefixes panicked on a document without element"),
 ]
 OPEN = [
+ {"property": "C10", "ledger": "F29",
+  "signature": "C10/serialise/emitted-names-differ/unns-element-under-default-binding-written-unprefixed",
+  "what": "a no-namespace element with a default-namespace binding in scope is serialised unprefixed without xmlns=\"\", so the emitted name means the default namespace (also after create_missing_prefixes, which cannot repair it)",
+  "witness": "<{urn:A}a xmlns=\"urn:A\"><b/></a> built through the creation API; to_string gives <a xmlns=\"urn:A\"><b/></a>"},
  {"property": "C09", "ledger": "F29",
   "signature": "C09/node_name_ref/prefix-resolves-to-another-namespace/element-in-no-namespace-under-default-binding",
   "what": "node_name_ref (also name_ref / full_name) of a no-namespace element with a default-namespace binding in scope reports the unprefixed name, which in that scope denotes the default namespace",
